@@ -34,6 +34,7 @@ type State struct {
 	locks    map[string]string // monitor key -> Bool term "held"
 	lockSnap map[string]*State // monitor key -> state at write-lock acquisition
 	nbLocks  map[string]string // non-blocking lock class key -> Bool term "held"
+	calls    map[string]string // callee name -> Int term: calls made so far in the function's own body (spec helper calls(F))
 }
 
 func newState(ep *epoch) *State {
@@ -52,6 +53,12 @@ func (s *State) clone() *State {
 		n.locks[k] = v
 	}
 	n.defers = append([]deferred{}, s.defers...)
+	if s.calls != nil {
+		n.calls = make(map[string]string, len(s.calls))
+		for k, v := range s.calls {
+			n.calls[k] = v
+		}
+	}
 	if s.nbLocks != nil {
 		n.nbLocks = make(map[string]string, len(s.nbLocks))
 		for k, v := range s.nbLocks {
